@@ -16,11 +16,11 @@ import (
 
 // Mention kinds.
 const (
-	kPos     = "pos"      // q(X)
-	kNeg     = "neg"      // !q(X)
-	kTPos    = "tpos"     // q(X)@[T] or <-[..] q(X)
-	kTNeg    = "tneg"     // !q(X)@[T]
-	kBuiltin = "builtin"  // :lt(X, 3)
+	kPos     = "pos"     // q(X)
+	kNeg     = "neg"     // !q(X)
+	kTPos    = "tpos"    // q(X)@[T] or <-[..] q(X)
+	kTNeg    = "tneg"    // !q(X)@[T]
+	kBuiltin = "builtin" // :lt(X, 3)
 )
 
 // Mention is one body literal. Pred >= 0 refers to predicate p<Pred>; Pred < 0 to the extensional e<-Pred>.
